@@ -1796,7 +1796,7 @@ Proof. intros H. induction l as [|x l IH]; cbn [forallb]; [reflexivity|]. now re
 
 Lemma import_step_ok q s :
   1 <= s_handle s -> svc_spec s ->
-  import_step (Done q) (export_svc s) = Done (add_service q (imp_svc s)).
+  import_step (Done q) (export_svc s) = Done (add_service (pre_register q (imp_svc s)) (imp_svc s)).
 Proof.
   intros H1 Hs. pose proof Hs as (_ & Hcs & _ & He). rewrite lenN_svc_dump in He. unfold svc_size in He.
   pose proof (chars_spec_facts _ _ Hcs) as Hf. rewrite Forall_forall in Hf.
@@ -1804,21 +1804,210 @@ Proof.
   assert (E2 : uuid_eqb (svc_type s) (u16 0x2800) = s_primary s) by (unfold svc_type; now destruct (s_primary s)).
   assert (E3 : uuid_eqb (svc_type s) (u16 0x2800) || uuid_eqb (svc_type s) (u16 0x2801) = true)
     by (unfold svc_type; now destruct (s_primary s)).
-  rewrite E3, E2. cbn [negb]. f_equal. f_equal. rewrite map_map. fold imp_chr.
-  rewrite add_chars_nonzero.
-  - cbn [s_id s_primary s_uuid s_handle s_end s_incls s_chars app]. unfold imp_svc. f_equal.
-    apply fold_max_le. apply Forall_forall. intros x Hx. apply in_map_iff in Hx as (c & <- & Hc').
-    destruct (Hf _ Hc') as (_ & Hsp & Hle). destruct (imp_chr_fields c Hsp) as (_ & _ & -> & _). lia.
-  - apply Forall_forall. intros x Hx. apply in_map_iff in Hx as (c & <- & Hc').
-    destruct (Hf _ Hc') as (Hlo & Hsp & _). destruct (imp_chr_fields c Hsp) as (-> & _). lia.
+  rewrite E3, E2. cbn [negb].
+  assert (E : fold_left svc_add_char (map import_chr (map export_chr (s_chars s)))
+                        (mkS 0 (s_primary s) (s_uuid s) (s_handle s) (s_end s) [] []) = imp_svc s).
+  { rewrite map_map. fold imp_chr. rewrite add_chars_nonzero.
+    - cbn [s_id s_primary s_uuid s_handle s_end s_incls s_chars app]. unfold imp_svc. f_equal.
+      apply fold_max_le. apply Forall_forall. intros x Hx. apply in_map_iff in Hx as (c & <- & Hc').
+      destruct (Hf _ Hc') as (_ & Hsp & Hle). destruct (imp_chr_fields c Hsp) as (_ & _ & -> & _). lia.
+    - apply Forall_forall. intros x Hx. apply in_map_iff in Hx as (c & <- & Hc').
+      destruct (Hf _ Hc') as (Hlo & Hsp & _). destruct (imp_chr_fields c Hsp) as (-> & _). lia. }
+  now rewrite E.
 Qed.
 
 Lemma placed_nonzero q s0 : s_handle s0 <> 0 -> placed q s0 = number_svc (p_fresh q) s0.
 Proof. intros H. unfold placed. cbn [number_svc s_handle]. destruct (s_handle s0 =? 0) eqn:E; [apply N.eqb_eq in E; contradiction|reflexivity]. Qed.
 
+(** ** the dict of an imported profile: registration order of the from_json loop *)
+
+Lemma db_set_all_fresh {V} (es l : list (N * V)) :
+  NoDup (map fst es) -> (forall k, In k (map fst es) -> ~ In k (map fst l)) -> db_set_all es l = l ++ es.
+Proof.
+  unfold db_set_all. revert l; induction es as [|[k v] r IH]; intros l Hnd Hd; cbn [fold_left].
+  - now rewrite app_nil_r.
+  - cbn [map fst] in Hnd. inversion Hnd as [|? ? Hk Hnd']; subst. cbn [fst snd].
+    rewrite db_set_fresh by (apply Hd; now left). rewrite IH; [now rewrite <- app_assoc|exact Hnd'|].
+    intros k' Hk' Hin. rewrite map_app, in_app_iff in Hin. destruct Hin as [Hin|[<-|[]]].
+    + apply (Hd k'); [now right|exact Hin].
+    + contradiction.
+Qed.
+
+Lemma db_set_all_same {V} (es l : list (N * V)) :
+  (forall e, In e es -> db_get (fst e) l = Some (snd e)) -> db_set_all es l = l.
+Proof.
+  unfold db_set_all. induction es as [|e r IH]; intros H; cbn [fold_left]; [reflexivity|].
+  rewrite db_set_same by (apply H; now left). apply IH. intros x Hx. apply H. now right.
+Qed.
+
+Lemma Permutation_flat_map_pointwise {A B} (f g : A -> list B) l :
+  (forall x, In x l -> Permutation (f x) (g x)) -> Permutation (flat_map f l) (flat_map g l).
+Proof.
+  induction l as [|x l IH]; intros H; cbn [flat_map]; [constructor|].
+  apply Permutation_app; [apply H; now left|apply IH; intros y Hy; apply H; now right].
+Qed.
+
+Lemma imp_entries_perm s : s_incls s = [] -> Permutation (imp_entries s) (svc_entries s).
+Proof.
+  intros Hi. unfold imp_entries, svc_entries. rewrite Hi. cbn [incl_entries app].
+  rewrite <- Permutation_cons_append. constructor.
+  apply Permutation_flat_map_pointwise. intros c _. unfold chr_entries.
+  change ((c_handle c, RChar (s_id s) (c_id c)) :: (c_vhandle c, RVal (s_id s) (c_id c)) :: desc_entries (s_id s) (c_id c) 0 (c_descs c))
+    with ([(c_handle c, RChar (s_id s) (c_id c)); (c_vhandle c, RVal (s_id s) (c_id c))] ++ desc_entries (s_id s) (c_id c) 0 (c_descs c)).
+  apply Permutation_app_comm.
+Qed.
+
+Definition imp_all (l : list svc) : list (N * ref) := flat_map imp_entries l.
+
+Lemma imp_all_perm l : Forall (fun s => s_incls s = []) l -> Permutation (imp_all l) (all_entries l).
+Proof.
+  intros H. rewrite Forall_forall in H. apply Permutation_flat_map_pointwise. intros s Hs. now apply imp_entries_perm, H.
+Qed.
+
+(** invariant of a profile under construction by the JSON import *)
+Record InvI (p : profile) : Prop := mkInvI {
+  j_start : 1 <= p_start p;
+  j_chain : gchain svc_entries (p_start p) (p_svcs p) (p_next p);
+  j_cchain : gchain svc_cmap (p_start p) (p_svcs p) (p_next p);
+  j_db : p_db p = imp_all (p_svcs p);
+  j_cmap : p_cmap p = all_cmap (p_svcs p);
+  j_noincl : Forall (fun s => s_incls s = []) (p_svcs p);
+  j_ids : ids_ok (p_fresh p) (p_svcs p) }.
+
+Lemma exp_imp_entries svcs s :
+  find_svc (s_id s) svcs = Some s -> flat_map (exp_entry svcs) (imp_entries s) = [export_svc s].
+Proof.
+  intros Hf. unfold imp_entries. rewrite flat_map_app. cbn [flat_map]. unfold exp_entry at 2. cbn [snd]. rewrite Hf, app_nil_r.
+  replace (flat_map (exp_entry svcs) (flat_map _ (s_chars s))) with (@nil jsvc); [reflexivity|].
+  induction (s_chars s) as [|c r IH]; cbn [flat_map]; [reflexivity|].
+  rewrite flat_map_app, <- IH, app_nil_r, flat_map_app, exp_desc_entries. reflexivity.
+Qed.
+
+Lemma export_explicit_imp p : InvI p -> export p = map export_svc (p_svcs p).
+Proof.
+  intros [_ _ _ Hdb _ _ [Hnd _]]. rewrite export_unfold, Hdb. apply all_ids_parts in Hnd as [Hs _]. unfold imp_all.
+  assert (G : forall l, (forall s, In s l -> In s (p_svcs p)) ->
+              flat_map (exp_entry (p_svcs p)) (flat_map imp_entries l) = map export_svc l).
+  { induction l as [|s l IH]; intros Hl; cbn [flat_map map]; [reflexivity|].
+    rewrite flat_map_app, IH by (intros x Hx; apply Hl; now right).
+    rewrite exp_imp_entries; [reflexivity|]. unfold find_svc. apply (find_unique s_id); [exact Hs|apply Hl; now left]. }
+  apply G. auto.
+Qed.
+
+Lemma keys_all_dump l : map fst (flat_map svc_dump l) = map fst (all_entries l).
+Proof.
+  unfold all_entries. induction l as [|s r IH]; cbn [flat_map]; [reflexivity|]. now rewrite !map_app, keys_svc_dump, IH.
+Qed.
+
+Lemma res_all_entries svcs :
+  NoDup (all_ids svcs) -> map (res svcs) (all_entries svcs) = flat_map svc_dump svcs.
+Proof.
+  intros Hnd. apply all_ids_parts in Hnd as [Hs Hc]. unfold all_entries.
+  assert (G : forall l, (forall s, In s l -> In s svcs) ->
+              map (res svcs) (flat_map svc_entries l) = flat_map svc_dump l).
+  { induction l as [|s l IH]; intros Hl; cbn [flat_map map]; [reflexivity|].
+    rewrite map_app, IH by (intros x Hx; apply Hl; now right). f_equal.
+    assert (Hin : In s svcs) by (apply Hl; now left).
+    apply resolve_svc; [unfold find_svc; now apply (find_unique s_id)|].
+    rewrite Forall_forall in Hc. now apply Hc. }
+  apply G. auto.
+Qed.
+
+Lemma cmap_view_of p :
+  NoDup (all_ids (p_svcs p)) -> p_cmap p = all_cmap (p_svcs p) ->
+  cmap_view p = flat_map (fun s => map (fun c => (c_handle c, Some (s_handle s))) (s_chars s)) (p_svcs p).
+Proof.
+  intros Hnd Hcm. unfold cmap_view. rewrite Hcm. apply all_ids_parts in Hnd as [Hs _]. unfold all_cmap.
+  assert (G : forall l, (forall s, In s l -> In s (p_svcs p)) ->
+     map (fun e => (fst e, option_map s_handle (find_svc (snd e) (p_svcs p)))) (flat_map svc_cmap l)
+     = flat_map (fun s => map (fun c => (c_handle c, Some (s_handle s))) (s_chars s)) l).
+  { induction l as [|s l IH]; intros Hl; cbn [flat_map map]; [reflexivity|].
+    rewrite map_app, IH by (intros x Hx; apply Hl; now right). f_equal.
+    unfold svc_cmap. rewrite map_map. apply map_ext. intros c. cbn [fst snd].
+    unfold find_svc. rewrite (find_unique s_id); [reflexivity|exact Hs|apply Hl; now left]. }
+  apply G. auto.
+Qed.
+
+(** an imported profile agrees with its layout, although its dict is not in ascending order *)
+Lemma invi_agrees p : InvI p -> db_agrees p.
+Proof.
+  intros [Hst Hc Hcc Hdb Hcm Hni [Hnd Hlt]]. unfold db_agrees. split; [|split; [|split]].
+  - unfold dump. fold (res (p_svcs p)). rewrite Hdb, <- (res_all_entries _ Hnd).
+    apply Permutation_map, imp_all_perm, Hni.
+  - rewrite keys_all_dump. eapply incr_ascending. apply (gchain_entries _ _ _ _ Hc).
+  - rewrite (cmap_view_of _ Hnd Hcm). reflexivity.
+  - rewrite Hcm. eapply incr_NoDup. apply (gchain_entries _ _ _ _ Hcc).
+Qed.
+
+Lemma imp_svc_cmap_sorted n s : svc_ok s -> ent_sorted svc_cmap (number_svc n (imp_svc s)).
+Proof.
+  intros Hok. pose proof (svc_ok_spec _ Hok) as (_ & Hcs & _). pose proof (chars_spec_facts _ _ Hcs) as Hf.
+  rewrite Forall_forall in Hf. destruct (svc_ok_cmap_sorted _ Hok) as (H1 & H2 & H3).
+  assert (Hk : map fst (svc_cmap (number_svc n (imp_svc s))) = map fst (svc_cmap s)).
+  { rewrite !keys_svc_cmap. unfold number_svc, imp_svc. cbn [s_chars].
+    assert (E : forall m cs, map c_handle (number_chars m cs) = map c_handle cs).
+    { intros m cs; revert m; induction cs as [|c r IH]; intros m; cbn [number_chars map c_handle]; [reflexivity|]. now rewrite IH. }
+    rewrite E, map_map. apply map_ext_in. intros c Hc. destruct (Hf _ Hc) as (_ & Hsp & _).
+    now destruct (imp_chr_fields c Hsp) as (-> & _). }
+  unfold ent_sorted. cbn [number_svc imp_svc s_handle s_end]. split; [exact H1|]. split.
+  - eapply incr_keys; [symmetry; exact Hk|exact H2].
+  - eapply all_lt_keys; [symmetry; exact Hk|exact H3].
+Qed.
+
+Lemma import_add_invi q s :
+  InvI q -> svc_ok s -> 1 <= s_handle s -> p_next q <= s_handle s ->
+  let q' := add_service (pre_register q (imp_svc s)) (imp_svc s) in
+  InvI q' /\ p_svcs q' = p_svcs q ++ [number_svc (p_fresh q) (imp_svc s)] /\ p_next q' = s_end s + 1.
+Proof.
+  intros [Hst Hc Hcc Hdb Hcm Hni Hid] Hok H1 Hn. cbv zeta.
+  pose proof (svc_ok_spec _ Hok) as Hsp.
+  assert (Hnz : s_handle (imp_svc s) <> 0) by (cbn [imp_svc s_handle]; lia).
+  set (s1 := number_svc (p_fresh q) (imp_svc s)).
+  assert (Hp : placed (pre_register q (imp_svc s)) (imp_svc s) = s1) by (now rewrite placed_nonzero).
+  pose proof (imp_svc_sorted (p_fresh q) s H1 Hsp) as Hsort. fold s1 in Hsort.
+  pose proof (imp_svc_cmap_sorted (p_fresh q) s Hok) as Hcsort. fold s1 in Hcsort.
+  assert (Hni1 : s_incls s1 = []) by reflexivity.
+  assert (Hh1 : s_handle s1 = s_handle s) by reflexivity.
+  assert (He1 : s_end s1 = s_end s) by reflexivity.
+  pose proof (imp_entries_perm s1 Hni1) as Hperm.
+  destruct Hsort as (Hs1 & Hs2 & Hs3).
+  assert (Hnd1 : NoDup (map fst (imp_entries s1))).
+  { apply (Permutation_NoDup (l := map fst (svc_entries s1))); [apply Permutation_map, Permutation_sym, Hperm|].
+    eapply incr_NoDup; exact Hs2. }
+  assert (Hlt : all_lt (p_db q) (s_handle s)).
+  { rewrite Hdb. pose proof (gchain_entries _ _ _ _ Hc) as [_ Hl].
+    apply Forall_forall. intros e He. apply (Permutation_in _ (imp_all_perm _ Hni)) in He.
+    unfold all_lt in Hl. rewrite Forall_forall in Hl. apply Hl in He. fold (all_entries (p_svcs q)) in He. lia. }
+  assert (Hfresh : forall k, In k (map fst (svc_entries s1)) -> ~ In k (map fst (p_db q))).
+  { intros k Hk Hin. apply incr_all_ge in Hs2. apply in_map_iff in Hk as (e & <- & He).
+    unfold all_ge in Hs2. rewrite Forall_forall in Hs2. apply Hs2 in He.
+    apply in_map_iff in Hin as (e' & E' & He'). unfold all_lt in Hlt. rewrite Forall_forall in Hlt. apply Hlt in He'. lia. }
+  assert (Edb1 : db_set_all (imp_entries s1) (p_db q) = p_db q ++ imp_entries s1).
+  { apply db_set_all_fresh; [exact Hnd1|]. intros k Hk. apply Hfresh.
+    apply (Permutation_in _ (Permutation_map fst Hperm)), Hk. }
+  rewrite add_service_eq, Hp. cbn [pre_register p_start p_next p_fresh p_svcs p_db p_cmap].
+  fold s1. rewrite Edb1.
+  split; [|split; [reflexivity|now rewrite He1]].
+  constructor; cbn [p_start p_next p_fresh p_svcs p_db p_cmap].
+  - exact Hst.
+  - eapply gchain_app_intro; [exact Hc|]. cbn [gchain]. split; [lia|]. split; [exact (conj Hs1 (conj Hs2 Hs3))|lia].
+  - eapply gchain_app_intro; [exact Hcc|]. cbn [gchain]. split; [lia|]. split; [exact Hcsort|lia].
+  - rewrite db_set_all_same.
+    + rewrite Hdb. unfold imp_all. rewrite flat_map_app. cbn [flat_map]. now rewrite app_nil_r.
+    + intros e He. rewrite db_get_app_r by (apply Hfresh; now apply in_map).
+      apply db_get_In; [exact Hnd1|]. destruct e as [k v]. apply (Permutation_in _ (Permutation_sym Hperm)), He.
+  - rewrite Hcm. destruct Hcsort as (_ & Hc2 & _).
+    rewrite (db_set_all_append (s_handle s1)); [|exact Hc2|].
+    + unfold all_cmap. rewrite flat_map_app. cbn [flat_map]. now rewrite app_nil_r.
+    + pose proof (gchain_entries _ _ _ _ Hcc) as [_ Hl]. eapply all_lt_weaken; [exact Hl|lia].
+  - apply Forall_app. split; [exact Hni|]. now constructor.
+  - unfold s1. cbn [imp_svc s_chars]. replace (lenN (map imp_chr (s_chars s))) with (lenN (s_chars (imp_svc s))) by reflexivity.
+    rewrite <- (placed_nonzero q _ Hnz). apply ids_ok_add, Hid.
+Qed.
+
 Lemma import_fold l : forall q lo hi,
-  InvW q -> 1 <= lo -> p_next q <= lo -> gchain svc_entries lo l hi -> Forall svc_ok l ->
-  exists q', fold_left import_step (map export_svc l) (Done q) = Done q' /\ InvW q'
+  InvI q -> 1 <= lo -> p_next q <= lo -> gchain svc_entries lo l hi -> Forall svc_ok l ->
+  exists q', fold_left import_step (map export_svc l) (Done q) = Done q' /\ InvI q'
              /\ map export_svc (p_svcs q') = map export_svc (p_svcs q) ++ map export_svc l.
 Proof.
   induction l as [|s r IH]; intros q lo hi HW Hlo Hn Hc Hok; cbn [map fold_left].
@@ -1826,15 +2015,10 @@ Proof.
   - cbn [gchain] in Hc. destruct Hc as (H1 & H2 & H3). apply Forall_cons_iff in Hok as [Hoks Hokr].
     pose proof (svc_ok_spec _ Hoks) as Hsp.
     rewrite import_step_ok; [|lia|exact Hsp].
-    assert (Hnz : s_handle (imp_svc s) <> 0) by (cbn [imp_svc s_handle]; lia).
-    pose proof (placed_nonzero q _ Hnz) as Hp.
-    assert (HW1 : InvW (add_service q (imp_svc s))).
-    { apply add_service_invW; [exact HW|rewrite Hp; apply imp_svc_sorted; [lia|exact Hsp]|rewrite Hp; cbn [number_svc imp_svc s_handle]; lia]. }
-    destruct (IH (add_service q (imp_svc s)) (s_end s + 1) hi HW1) as (q' & E1 & E2 & E3); try assumption.
-    + lia.
-    + rewrite add_service_eq, Hp. cbn [p_next number_svc imp_svc s_end]. lia.
-    + exists q'. split; [exact E1|]. split; [exact E2|]. rewrite E3, add_service_eq, Hp. cbn [p_svcs].
-      rewrite map_app. cbn [map]. rewrite export_imp_svc by exact Hsp. now rewrite <- app_assoc.
+    destruct (import_add_invi q s HW Hoks ltac:(lia) ltac:(lia)) as (HW1 & Esv & Enx).
+    destruct (IH _ (s_end s + 1) hi HW1 ltac:(lia) ltac:(lia) H3 Hokr) as (q' & E1 & E2 & E3).
+    exists q'. split; [exact E1|]. split; [exact E2|]. rewrite E3, Esv, map_app. cbn [map].
+    rewrite export_imp_svc by exact Hsp. now rewrite <- app_assoc.
 Qed.
 
 Lemma svc_in_domain s : 1 <= s_handle s -> svc_spec s -> jsvc_in_domain (export_svc s) = true.
@@ -1856,9 +2040,22 @@ Proof.
   intros (H1 & (H2 & _) & H3) [->|Hin]; [exact H1|]. specialize (IH _ H3 Hin). lia.
 Qed.
 
-(** Exporting, importing and exporting again gives the same export. *)
+Lemma empty_invi : InvI (empty_profile 1).
+Proof.
+  constructor; cbn [empty_profile p_start p_next p_fresh p_svcs p_db p_cmap gchain imp_all all_cmap flat_map].
+  - lia.
+  - lia.
+  - lia.
+  - reflexivity.
+  - reflexivity.
+  - constructor.
+  - split; constructor.
+Qed.
+
+(** Exporting, importing and exporting again gives the same export; the imported profile
+    agrees with its layout (all its lookups do), whatever its registration order. *)
 Theorem import_export_id p :
-  Inv p -> exists q, import (export p) = Done q /\ export q = export p.
+  Inv p -> exists q, import (export p) = Done q /\ export q = export p /\ db_agrees q.
 Proof.
   intros HI. pose proof HI as [HW Hok _]. pose proof HW as [Hst Hc _ _].
   rewrite (export_explicit _ HW). unfold import.
@@ -1867,10 +2064,9 @@ Proof.
     - pose proof (gchain_handles_ge _ _ _ _ Hc Hs). lia.
     - rewrite Forall_forall in Hok. apply svc_ok_spec, Hok, Hs. }
   rewrite Hdom.
-  assert (HW0 : InvW (empty_profile 1)) by (apply (empty_inv 1); lia).
   assert (Hn0 : p_next (empty_profile 1) <= p_start p) by (cbn [empty_profile p_next]; exact Hst).
-  destruct (import_fold (p_svcs p) (empty_profile 1) (p_start p) (p_next p) HW0 Hst Hn0 Hc Hok) as (q & E1 & E2 & E3).
-  exists q. split; [exact E1|]. rewrite (export_explicit _ E2), E3. reflexivity.
+  destruct (import_fold (p_svcs p) (empty_profile 1) (p_start p) (p_next p) empty_invi Hst Hn0 Hc Hok) as (q & E1 & E2 & E3).
+  exists q. split; [exact E1|]. split; [|now apply invi_agrees]. rewrite (export_explicit_imp _ E2), E3. reflexivity.
 Qed.
 
 (** * The statements of Property.v *)
@@ -1908,7 +2104,7 @@ Qed.
 
 Theorem import_export_reachable start sds ops q :
   1 <= start -> run (build start sds) ops = Done q ->
-  exists q', import (export q) = Done q' /\ export q' = export q.
+  exists q', import (export q) = Done q' /\ export q' = export q /\ db_agrees q'.
 Proof.
   intros H E. destruct (build_inv start sds H) as (H1 & _ & _).
   destruct (run_inv ops _ H1) as (q0 & E0 & HI & _). rewrite E in E0. injection E0 as <-.
